@@ -30,7 +30,7 @@ ASSUMPTIONS = ["sasmodels.special provides the C names for the Python rendering 
 REQUIRED_MONITORS = ["python_equals_c", "both_equal_formula", "ill_formed_rejected"]
 REQUIRED_BUCKETS = {"quick": ["has:vector", "has:shell_volume", "has:radius_effective", "has:valid", "has:orientation", "dim:1d", "dim:2d",
                               "mesh:mono", "mesh:>=2dims", "trunc:1", "trunc:0", "cutoff>0", "invalid_points>0",
-                              "mono_invalid", "lane:asan", "wrapper:first", "wrapper:revised", "has:shell_volume-in-inline-c-code", "mesh:unnormalised-weights-with-cutoff"]}
+                              "mono_invalid", "lane:asan", "wrapper:first", "wrapper:revised", "has:shell_volume-in-inline-c-code", "mesh:unnormalised-weights-with-cutoff", "jitter:psi-alone", "jitter:theta-alone"]}
 REQUIRED_BUCKETS["thorough"] = REQUIRED_BUCKETS["quick"]
 
 
@@ -129,9 +129,15 @@ def gen_definition(rng, d):
         pars.append(["phi", "degrees", 60, [-360, 360], "orientation", "longitude"])
         L0 = lens[int(rng.integers(len(lens)))]
         iqac = ("*", iq, ("+", ("k", 1.0), ("*", ("k", 0.5), ("f", "cos", ("*", ("v", "qc"), L0)))))
+        if d % 10 == 9:
+            # a shape without rotational symmetry: three view angles and a function of (qa, qb, qc)
+            pars.append(["psi", "degrees", 30, [-360, 360], "orientation", "roll"])
+            L1 = lens[int(rng.integers(len(lens)))]
+            iqac = ("*", iqac, ("+", ("k", 1.0), ("*", ("k", 0.3), ("f", "cos", ("*", ("v", "qa"), L1)))))
     return {"shell_in_ccode": bool(shell is not None and d % 2 == 1),
             "pars": pars, "vols": vols, "has_vector": has_vector, "iq": iq, "form": form, "shell": shell,
-            "modes": modes, "valid": valid, "slds": slds, "plain": plain, "oriented": oriented, "iqac": iqac}
+            "modes": modes, "valid": valid, "slds": slds, "plain": plain, "oriented": oriented, "iqac": iqac,
+            "asymmetric": bool(oriented and d % 10 == 9)}
 
 
 def txt(e):
@@ -195,7 +201,9 @@ def write_files(defn, name, dirpath, ill=None):
     # ---- C rendering
     c = head + modes_txt
     c += 'Iq = """\n    return %s;\n"""\n' % txt(defn["iq"])
-    if defn.get("iqac") is not None:
+    if defn.get("iqac") is not None and defn.get("asymmetric"):
+        c += 'Iqabc = """\n    const double q = sqrt(qa*qa + qb*qb + qc*qc);\n    return %s;\n"""\n' % txt(defn["iqac"])
+    elif defn.get("iqac") is not None:
         c += 'Iqac = """\n    const double q = sqrt(qab*qab + qc*qc);\n    return %s;\n"""\n' % txt(defn["iqac"])
     c += 'form_volume = """\n    return %s;\n"""\n' % txt(defn["form"])
     cdecl = ", ".join(("double *%s" % a if a == "shell" else "double %s" % a) for a in vol_args)
@@ -249,10 +257,7 @@ ILL = {
                                               ["phi", "degrees", 0, [-360, 360], "orientation", ""]],
     # theta and phi in the right order at the end of the table, but not adjacent (only used with definitions that do
     # have a 2-D function, so that nothing else is wrong with them)
-    "angles split by another parameter": lambda P: (P[:-1] + [["gap_len", "Ang", 10.0, [0, np.inf], "", ""]] + P[-1:])
-    if (len(P) >= 2 and P[-2][0] == "theta") else P + [["theta", "degrees", 0, [-360, 360], "orientation", ""],
-                                                       ["gap_len", "Ang", 10.0, [0, np.inf], "", ""],
-                                                       ["phi", "degrees", 0, [-360, 360], "orientation", ""]],
+    "angles split by another parameter": lambda P: _split_angles(P),
     "unknown parameter type": lambda P: _mod(P, 0, lambda p: p.__setitem__(4, "bogus")),
     "vector control non-integer": lambda P: P + [["m_ctl", "", 1.5, [0.5, 2.5], "", ""], ["vec[m_ctl]", "Ang", 1, [0, 10], "volume", ""]],
     # names that collide only after the table has been expanded into the names a caller can set
@@ -262,6 +267,15 @@ ILL = {
     "name of a generated magnetic parameter": lambda P: P + [["xsld", "1e-6/Ang^2", 1, [-10, 10], "sld", ""],
                                                               ["xsld_M0", "", 0, [-10, 10], "", ""]],
 }
+
+
+def _split_angles(P):
+    names = [p[0] for p in P]
+    gap = ["gap_len", "Ang", 10.0, [0, np.inf], "", ""]
+    if "theta" in names:
+        k = names.index("psi") if "psi" in names else names.index("phi")      # before the last angle of the block
+        return P[:k] + [gap] + P[k:]
+    return P + [["theta", "degrees", 0, [-360, 360], "orientation", ""], gap, ["phi", "degrees", 0, [-360, 360], "orientation", ""]]
 
 
 def _mod(P, i, fn):
@@ -295,7 +309,7 @@ def formula(defn, info, mesh, q, dim, cutoff, mode):
     axes = [list(zip([float(x) for x in np.ravel(c[1])], [float(x) for x in np.ravel(c[2])])) for c in cols]
     qs = [float(x) for x in q[0]] if dim == "1d" else [math.hypot(a, b) for a, b in zip(q[0], q[1])]
     oriented2d = bool(defn.get("oriented")) and dim == "2d"
-    view = {nm: float(c[0]) for nm, c in zip(names, cols) if nm in ("theta", "phi")}
+    view = {nm: float(c[0]) for nm, c in zip(names, cols) if nm in ("theta", "phi", "psi")}
     sw, swf, sws, swr = [], [], [], []
     f2 = [[] for _ in qs]
     ninv = 0
@@ -304,6 +318,8 @@ def formula(defn, info, mesh, q, dim, cutoff, mode):
         w = 1.0
         for c in combo:
             w *= c[1]
+        if oriented2d:
+            w *= abs(math.cos(math.radians(pt.get("theta", 0.0))))     # documented weight of a jitter point
         env = expand(defn, pt)
         if defn["valid"] is not None and not ev(defn["valid"], env):
             ninv += 1
@@ -320,9 +336,10 @@ def formula(defn, info, mesh, q, dim, cutoff, mode):
         for j, qq in enumerate(qs):
             env["q"] = qq
             if oriented2d:
-                qa, qb, qc = sas.particle_q(float(q[0][j]), float(q[1][j]), view["theta"], view["phi"], 0.0,
-                                            pt.get("theta", 0.0), pt.get("phi", 0.0), 0.0)
+                qa, qb, qc = sas.particle_q(float(q[0][j]), float(q[1][j]), view["theta"], view["phi"], view.get("psi", 0.0),
+                                            pt.get("theta", 0.0), pt.get("phi", 0.0), pt.get("psi", 0.0))
                 env["qc"] = qc
+                env["qa"] = qa
                 f2[j].append(w*ev(defn["iqac"], env))
             else:
                 f2[j].append(w*ev(defn["iq"], env))
@@ -422,6 +439,12 @@ def run_case(case, rec):
             v0, v1 = defn["vols"][0], defn["vols"][1]
             pars[v0] = 1.55*pars[v1]
             pars.update({v0 + "_pd": 0.1, v0 + "_pd_n": 5, v0 + "_pd_type": "gaussian", v0 + "_pd_nsigma": 2.0})
+        if defn["oriented"] and dim == "2d" and shape in ("mono", "pd1", "pd2"):
+            # jitter on one view angle only (psi alone for the shapes that have it, else theta or phi alone)
+            ja = "psi" if defn.get("asymmetric") and c % 2 == 1 else ["theta", "phi"][c % 2]
+            pars.update({ja + "_pd": float(rng.uniform(5, 30)), ja + "_pd_n": int(rng.integers(3, 7)), ja + "_pd_nsigma": 2.0,
+                         ja + "_pd_type": ["gaussian", "uniform"][int(rng.integers(2))]})
+            rec.bucket("jitter:" + ja + "-alone")
         cutoff = [0.0, 0.0, 1e-3][c % 3]
         if cutoff:
             rec.bucket("cutoff>0")
